@@ -86,7 +86,7 @@ def run(chk):
                 op["ch"] = {}
             tlist = ["campaign"] + ([types[i % len(types)]] if (not quick or i % 3 == 0) else [])
             for typ in tlist:
-                for via in (["method", "function"] if o["kind"] in ("obj", "sco5") else ["function"]):
+                for via in (["method", "function"] if o["kind"] in ("obj", "sco5", "sco4") else ["function"]):
                     conc = IV.realize(o, typ)
                     line, _ = observe(conc, o, op, typ, clock, via=via)
                     n2 += 1
@@ -106,7 +106,7 @@ def run(chk):
         n_hist = 150 if quick else 4000
         for h in range(n_hist):
             v = rng.choice(["2.0", "2.1"])
-            kind = rng.choice(["obj", "obj", "dict", "dict", "sco5"] if v == "2.1" else ["obj", "obj", "dict", "dict"])
+            kind = rng.choice(["obj", "obj", "dict", "dict", "sco5", "sco4"] if v == "2.1" else ["obj", "obj", "dict", "dict"])
             typ = rng.choice(sorted(O.TABLES[v]))
             m0 = rng.choice([0, 5000, 5300, 123456, 999999])
             if v == "2.0" and kind == "obj":
@@ -142,7 +142,7 @@ def run(chk):
                     op = {"k": "newmod", "ch": {}, "m": o["modified"] + delta}
                 else:
                     op = {"k": "revoke", "now": o["modified"] + delta}
-                via = rng.choice(["method", "function", "add_markings"]) if op["k"] == "new" and not op["ch"] and kind != "sco5" else rng.choice(["method", "function"])
+                via = rng.choice(["method", "function", "add_markings"]) if op["k"] == "new" and not op["ch"] and kind not in ("sco5", "sco4") else rng.choice(["method", "function"])
                 line, res = observe(conc, o, op, typ, clock, user_form=rng.choice(["datetime", "text6", "text3"]), via=via)
                 lines.append(line)
                 chk.case(signature(line))
